@@ -402,6 +402,7 @@ pub fn tagged_profile() -> Profile {
         ("add_type", 2),
         ("inject", 6),
         ("convert_local_to_import", 1),
+        ("replace_import", 2),
     ]);
     p.modes = ALL_MODES.to_vec();
     p
